@@ -17,8 +17,8 @@ struct _table_arm table_arm[] =
   { "bx",    0x012fff10, 0x0ffffff0, OP_BRANCH_EXCHANGE, 2, -1 },
   // These must come before the data processing rows, whose masks also match
   // them (the disassembler takes the first row that matches).
-  { "mul",   0x00000090, 0x0fd000f0, OP_MULTIPLY, 3, -1 },
-  { "mla",   0x00200090, 0x0fd000f0, OP_MULTIPLY, 3, -1 },
+  { "mul",   0x00000090, 0x0fe000f0, OP_MULTIPLY, 3, -1 },
+  { "mla",   0x00200090, 0x0fe000f0, OP_MULTIPLY, 3, -1 },
   { "swp",   0x01000090, 0x0fb00ff0, OP_SWAP, 3, -1 },
   { "mrs",   0x010f0000, 0x0fbf0fff, OP_MRS, 3, -1 },
   { "msr",   0x0129f000, 0x0fbffff0, OP_MSR_ALL, 3, -1 },
